@@ -33,7 +33,7 @@ func init() {
 func c02Docs() []*world.Doc {
 	all := world.BaseDocs()
 	// the common feature set: objects, lists, scalars, enums, aliases, fragments on the concrete type, variables, string/boolean arguments
-	return []*world.Doc{all[0], all[1], all[2], all[3], all[5], all[7], all[8], all[9]}
+	return []*world.Doc{all[0], all[1], all[2], all[3], all[5], all[7], all[8], all[9], all[11], all[12]}
 }
 
 func obsKey(o *world.Obs) string {
